@@ -118,6 +118,7 @@ class WsgiOutput(Scenario):
             "raise_at": rng.choice([None, None, None, None, 0, 1, 2]),
             "file_tape": [rng.choice([0, 1, 3]) for _ in range(10)],
             "tape": [rng.randrange(0, 8) for _ in range(4)],
+            "via_call": rng.random() < 0.4,
         }
 
     # ------------------------------------------------------------------
@@ -338,7 +339,18 @@ class WsgiOutput(Scenario):
         shape = facts["shape"]
         tag = f"shape={shape}"
         try:
-            app_iter, status, headers = resp.get_wsgi_response(environ)
+            if case.get("via_call"):
+                # the response used as a WSGI application, the way frameworks return it
+                got = {}
+
+                def start_response(status, headers, exc_info=None):
+                    got["status"], got["headers"] = status, headers
+                    return lambda data: None
+
+                app_iter = resp(environ, start_response)
+                status, headers = got.get("status"), got.get("headers", [])
+            else:
+                app_iter, status, headers = resp.get_wsgi_response(environ)
         except (BodyFailure, RuntimeError):
             if isinstance(case.get("raise_at"), int):
                 return  # werkzeug had to consume a failing body (e.g. to compute a length): the failure surfaces to the server
